@@ -44,7 +44,7 @@
        is held incompatibly; the holder of m.mu can always take a step and
        releases m.mu within 3 * (keys of the read map) + 6 of its own steps,
        whatever the others do. Holding or awaiting other keys appears nowhere. *)
-From Typ Require Import SyncMap.Model SyncMap.Inv SyncMap.KeyedMutex SyncMap.InsertOnly SyncMap.Progress.
+From Typ Require Import SyncMap.Model SyncMap.Inv SyncMap.KeyedMutex SyncMap.InsertOnly SyncMap.Progress SyncMap.Uncontended.
 
 Theorem C09_try_never_blocks : forall um f, is_try (f_pc f) = true -> step_post um f <> None.
 Proof. exact try_never_blocks. Qed.
@@ -150,6 +150,14 @@ Theorem C09_one_mutex_per_key : forall progs s1 s2 k m1 m2, io_progs progs ->
 Proof. exact one_value_per_key. Qed.
 Print Assumptions C09_one_mutex_per_key.
 
+(* ... and it is a value some LoadOrStore call of the programs supplied for that key (in the code: a mutex
+   some call allocated) - never a default such as the 0 of tryLoadOrStore's unreachable expunged branch *)
+Theorem C09_mutex_is_a_supplied_value : forall progs sched k m, io_progs progs ->
+  observed (run_schedule (init_config 1 progs) sched) k m ->
+  exists j p, In (CLoadOrStore j k m p) (concat progs).
+Proof. exact observed_value_is_supplied. Qed.
+Print Assumptions C09_mutex_is_a_supplied_value.
+
 (* [holds_excl c t k] / [holds_shared c t k]: computed from the history c_hist (see [holders]).
    [disc_from c0 sched]: whenever the schedule picks a thread that stands at the Unlock (RUnlock) step
    of a call on key k, that thread holds k exclusively (shared). *)
@@ -211,27 +219,47 @@ Theorem C09_tryrlock_fails_while_write_held : forall progs sched t ch c' f t2,
 Proof. exact tryrlock_fails_while_write_held. Qed.
 Print Assumptions C09_tryrlock_fails_while_write_held.
 
-(* [fresh_values progs]: calls on different keys carry different mutexes (in the code every call allocates
-   a new one). Then distinct keys have distinct mutexes, and "the key is free" decides: *)
-Theorem C09_trylock_succeeds_when_key_free : forall progs sched t ch c' f,
-  io_progs progs -> fresh_values progs -> disc_from (init_config 1 progs) sched ->
+(* "Succeed when the key is FREE AND UNCONTENDED".
+   [fresh_values progs]: calls on different keys carry different mutexes (in the code every call allocates a
+   new one), so distinct keys have distinct mutexes.
+   [uncontended c t k]: no thread other than t stands at the blocking Lock / RLock step (KM_Lock, KRW_Lock,
+   KRW_RLock) of a call on k, i.e. nobody can be queued inside k's mutex. This hypothesis is needed for Go:
+   sync.RWMutex refuses new readers (TryRLock false, RLock blocks) while a writer WAITS, and
+   sync.Mutex.TryLock may fail on a free mutex with queued waiters (starvation mode); the trusted mutex
+   machine of the model has no queue, so in the MODEL these theorems hold without it (the [_machine] lemmas
+   of SyncMap/InsertOnly.v, not property theorems). *)
+Theorem C09_trylock_succeeds_when_key_free : forall progs sched,
+  io_progs progs -> disc_from (init_config 1 progs) sched -> fresh_values progs ->
   let c := run_schedule (init_config 1 progs) sched in
+  forall t ch c' f,
   top_frame c t = Some f -> (f_pc f = KM_TryLock \/ f_pc f = KRW_TryLock) ->
-  (forall t2 b, (t2, key_of (f_call f), b) ∉ holders c) ->
+  (forall t2 b, (t2, key_of (f_call f), b) ∉ holders c) -> uncontended c t (key_of (f_call f)) ->
   step c t ch = Some c' ->
   completed (c_hist c') = completed (c_hist c) ++ [(t, f_call f, RBool true)] /\ holds_excl c' t (key_of (f_call f)).
 Proof. exact trylock_succeeds_when_key_free. Qed.
 Print Assumptions C09_trylock_succeeds_when_key_free.
 
-Theorem C09_tryrlock_succeeds_when_key_not_write_held : forall progs sched t ch c' f,
-  io_progs progs -> fresh_values progs -> disc_from (init_config 1 progs) sched ->
+Theorem C09_tryrlock_succeeds_when_key_not_write_held : forall progs sched,
+  io_progs progs -> disc_from (init_config 1 progs) sched -> fresh_values progs ->
   let c := run_schedule (init_config 1 progs) sched in
+  forall t ch c' f,
   top_frame c t = Some f -> f_pc f = KRW_TryRLock ->
-  (forall t2, ~ holds_excl c t2 (key_of (f_call f))) ->
+  (forall t2, ~ holds_excl c t2 (key_of (f_call f))) -> uncontended c t (key_of (f_call f)) ->
   step c t ch = Some c' ->
   completed (c_hist c') = completed (c_hist c) ++ [(t, f_call f, RBool true)] /\ holds_shared c' t (key_of (f_call f)).
 Proof. exact tryrlock_succeeds_when_key_not_write_held. Qed.
 Print Assumptions C09_tryrlock_succeeds_when_key_not_write_held.
+
+(* ... and the Try* step itself can always be taken: it never blocks and completes the call with a boolean
+   (TryLockKey as a whole may still have to wait for the Map's internal mutex inside its LoadOrStore: a
+   bounded wait, see C09_mu_released_within_bound) *)
+Theorem C09_try_step_enabled : forall progs sched,
+  io_progs progs -> disc_from (init_config 1 progs) sched ->
+  let c := run_schedule (init_config 1 progs) sched in
+  forall t ch f, top_frame c t = Some f -> is_try (f_pc f) = true ->
+  exists c' b, step c t ch = Some c' /\ completed (c_hist c') = completed (c_hist c) ++ [(t, f_call f, RBool b)].
+Proof. exact try_step_enabled. Qed.
+Print Assumptions C09_try_step_enabled.
 
 (* LockKey(k) waits exactly while k is held: its mutex step is disabled while anybody holds k ... *)
 Theorem C09_lock_waits_while_held : forall progs sched t ch f t2 b2,
@@ -242,20 +270,21 @@ Theorem C09_lock_waits_while_held : forall progs sched t ch f t2 b2,
 Proof. exact lock_waits_while_held. Qed.
 Print Assumptions C09_lock_waits_while_held.
 
-(* ... and enabled - it then completes and holds k - as soon as nobody holds k, whatever OTHER keys are
-   held or awaited by whomever (cross-key independence at the level of keys). *)
-Theorem C09_lock_succeeds_when_key_free : forall progs sched t ch f,
-  io_progs progs -> fresh_values progs -> disc_from (init_config 1 progs) sched ->
+(* ... and enabled - it then completes and holds k - as soon as nobody holds k and nobody else is queued
+   for k, whatever OTHER keys are held or awaited by whomever (cross-key independence at the level of keys). *)
+Theorem C09_lock_succeeds_when_key_free : forall progs sched,
+  io_progs progs -> disc_from (init_config 1 progs) sched -> fresh_values progs ->
   let c := run_schedule (init_config 1 progs) sched in
+  forall t ch f,
   top_frame c t = Some f -> (f_pc f = KM_Lock \/ f_pc f = KRW_Lock) ->
-  (forall t2 b, (t2, key_of (f_call f), b) ∉ holders c) ->
+  (forall t2 b, (t2, key_of (f_call f), b) ∉ holders c) -> uncontended c t (key_of (f_call f)) ->
   exists c', step c t ch = Some c' /\ completed (c_hist c') = completed (c_hist c) ++ [(t, f_call f, RUnit)] /\
              holds_excl c' t (key_of (f_call f)).
 Proof. exact lock_succeeds_when_key_free. Qed.
 Print Assumptions C09_lock_succeeds_when_key_free.
 
 (* RLockKey(k): disabled while k is held exclusively; enabled - readers do not exclude each other - as
-   soon as nobody holds k exclusively, and then holds k shared. *)
+   soon as nobody holds k exclusively and no writer is queued for k, and then holds k shared. *)
 Theorem C09_rlock_waits_while_write_held : forall progs sched t ch f t2,
   io_progs progs -> disc_from (init_config 1 progs) sched ->
   let c := run_schedule (init_config 1 progs) sched in
@@ -264,15 +293,29 @@ Theorem C09_rlock_waits_while_write_held : forall progs sched t ch f t2,
 Proof. exact rlock_waits_while_write_held. Qed.
 Print Assumptions C09_rlock_waits_while_write_held.
 
-Theorem C09_rlock_succeeds_when_key_not_write_held : forall progs sched t ch f,
-  io_progs progs -> fresh_values progs -> disc_from (init_config 1 progs) sched ->
+Theorem C09_rlock_succeeds_when_key_not_write_held : forall progs sched,
+  io_progs progs -> disc_from (init_config 1 progs) sched -> fresh_values progs ->
   let c := run_schedule (init_config 1 progs) sched in
+  forall t ch f,
   top_frame c t = Some f -> f_pc f = KRW_RLock ->
-  (forall t2, ~ holds_excl c t2 (key_of (f_call f))) ->
+  (forall t2, ~ holds_excl c t2 (key_of (f_call f))) -> uncontended c t (key_of (f_call f)) ->
   exists c', step c t ch = Some c' /\ completed (c_hist c') = completed (c_hist c) ++ [(t, f_call f, RUnit)] /\
              holds_shared c' t (key_of (f_call f)).
 Proof. exact rlock_succeeds_when_key_not_write_held. Qed.
 Print Assumptions C09_rlock_succeeds_when_key_not_write_held.
+
+(* Non-vacuity of [uncontended]: TryLockKey(7) against LockKey(7); UnlockKey(7). In A thread 1 is through
+   and thread 0 stands at its TryLock step with key 7 free and uncontended: the step returns true and
+   thread 0 holds 7. In B both stand at their mutex step: key 7 is free but CONTENDED for thread 0 (thread 1
+   stands at KM_Lock), the theorem does not apply - here Go's TryLock is allowed to fail. *)
+Example C09_example_uncontended :
+  disc_fromb (init_config 1 un_ex_progs) (un_ex_schedA ++ [(0%nat, 0%Z)]) = true /\
+  (let c := run_schedule (init_config 1 un_ex_progs) un_ex_schedA in
+   un_ex_obs c = ([Some KM_TryLock; None], [], true) /\
+   option_map (fun c' => (holders c', list.last (completed (c_hist c')))) (step c 0 0) =
+     Some ([(0%nat, 7%Z, true)], Some (0%nat, CLoadOrStore 0 7 1001 PTryLock, RBool true))) /\
+  un_ex_obs (run_schedule (init_config 1 un_ex_progs) un_ex_schedB) = ([Some KM_TryLock; Some KM_Lock], [], false).
+Proof. vm_compute. repeat split. Qed.
 
 (* ================= cross-key progress ================= *)
 (* [cs_measure s f]: what is left of the critical section of m.mu for the frame f of its holder;
@@ -310,14 +353,18 @@ Proof. exact mu_released_within_bound. Qed.
 Print Assumptions C09_mu_released_within_bound.
 
 (* What a thread can wait for: m.mu in the hands of another thread (see above), or - at the blocking
-   Lock / RLock step of a call on k - key k itself. No other key occurs. *)
-Theorem C09_blocked_only_by_mu_or_own_key : forall progs sched t f i,
-  io_progs progs -> fresh_values progs -> disc_from (init_config 1 progs) sched ->
+   Lock / RLock step of a call on k - key k itself: k held incompatibly, or k contended (another thread
+   queued at k's mutex: in Go a queued writer also stops new readers; in the queue-less machine of the
+   model this is never the only reason). No other key occurs. *)
+Theorem C09_blocked_only_by_mu_or_own_key : forall progs sched,
+  io_progs progs -> disc_from (init_config 1 progs) sched -> fresh_values progs ->
   let c := run_schedule (init_config 1 progs) sched in
+  forall t f i,
   c_insts c = [i] -> top_frame c t = Some f -> (forall ch, step c t ch = None) ->
   (is_lock_label (f_pc f) = true /\ exists t', t' <> t /\ i_mu i = Some t') \/
-  ((f_pc f = KM_Lock \/ f_pc f = KRW_Lock) /\ exists t2 b, (t2, key_of (f_call f), b) ∈ holders c) \/
-  (f_pc f = KRW_RLock /\ exists t2, holds_excl c t2 (key_of (f_call f))).
+  ((f_pc f = KM_Lock \/ f_pc f = KRW_Lock) /\
+     ((exists t2 b, (t2, key_of (f_call f), b) ∈ holders c) \/ ~ uncontended c t (key_of (f_call f)))) \/
+  (f_pc f = KRW_RLock /\ ((exists t2, holds_excl c t2 (key_of (f_call f))) \/ ~ uncontended c t (key_of (f_call f)))).
 Proof. exact blocked_only_by_mu_or_own_key. Qed.
 Print Assumptions C09_blocked_only_by_mu_or_own_key.
 
